@@ -231,7 +231,20 @@ class HttpWebServerPlugin(HttpProtocolHandlerPlugin):
                 if self.pipeline_request.is_complete:
                     remainder = self.pipeline_request.buffer
                     self.pipeline_request.buffer = None
-                    self.route.handle_request(self.pipeline_request)
+                    # Like the first request, a follow-up request is served
+                    # by the route its own path names.
+                    route = self._find_route(
+                        self.pipeline_request.path or b'/',
+                        httpProtocolTypes.HTTPS
+                        if self.encryption_enabled()
+                        else httpProtocolTypes.HTTP,
+                    )
+                    if route is None:
+                        self.client.queue(NOT_FOUND_RESPONSE_PKT)
+                        raise HttpProtocolException(
+                            'No route for pipelined request, will tear down request...',
+                        )
+                    route.handle_request(self.pipeline_request)
                     if not self.pipeline_request.is_http_1_1_keep_alive:
                         raise HttpProtocolException(
                             'Pipelined request is not keep-alive, will tear down request...',
@@ -301,6 +314,14 @@ class HttpWebServerPlugin(HttpProtocolHandlerPlugin):
             else httpProtocolTypes.HTTPS \
             if self.encryption_enabled() \
             else httpProtocolTypes.HTTP
+
+    def _find_route(
+            self, path: bytes, protocol: int,
+    ) -> Optional[HttpWebServerBasePlugin]:
+        for route in self.routes[protocol]:
+            if route.match(text_(path)):
+                return self.routes[protocol][route]
+        return None
 
     def _try_route(self, path: bytes) -> bool:
         do_ws_upgrade, protocol = self._protocol
